@@ -37,6 +37,8 @@ WF_EVENT = [
 ]
 WF_SELF = [
     "isdict(self.executions)", "isdict(self.execution_history)", "isdict(self.branch_metadata)",
+    "isobj(self.task_dispatcher)", "isdict(self.task_dispatcher.cancellers)",
+    "isdict(self.task_dispatcher.pending_requests)",
     "not same(self.executions, self.execution_history)",
 ]
 
@@ -158,6 +160,8 @@ def register(reg, repo):
         ],
         ghost_modifies=["n_pub", "pub_event", "pub_heap", "pub_shared", "issued", "n_hist", "hist_type",
                         "hist_details", "hist_heap", "hist_arn"],
+        # publish is the last thing change_state does: what was published is the heap at return
+        ghost_post={"pub_heap": "isnone(result[0])"},
         raises={})
 
 
@@ -166,7 +170,8 @@ NOTIFY = SE + "StateEngine.notify.<locals>."
 
 # objects the JSON-data functions never write (region separation of data and engine structures, assumption A8)
 ENGINE_OBJECTS = ["event", "context", "context['State']", "context['Execution']", "state", "self",
-                  "self.executions", "self.execution_history", "self.branch_metadata", "state_machine", "ASL"]
+                  "self.executions", "self.execution_history", "self.branch_metadata", "state_machine", "ASL",
+                  "self.task_dispatcher", "self.task_dispatcher.cancellers", "self.task_dispatcher.pending_requests"]
 
 # environment of the closures nested in StateEngine.notify (DESIGN 2.6): what notify has established
 NOTIFY_ENV = {"self": "obj", "event": "dict", "id": "any", "redelivered": "any", "context": "dict", "data": "json",
@@ -180,6 +185,9 @@ NOTIFY_ENV_PRE = WF_EVENT + WF_SELF + SEP_SELF_EVENT + [
     hist_is_list("event['context']['Execution']['Id']"),
     "isstr(event['context']['State']['Name'])",
     "not isnone(id)",
+    # field types of a validator-accepted state (C18 supplies these)
+    "implies(haskey(state, 'End'), isbool(state['End']))",
+    "implies(haskey(state, 'Next'), isstr(state['Next']))",
 ]
 
 
